@@ -124,7 +124,51 @@ def oracle_symv(sc, B, info, final):
         obl.append(('cell %d of y outside the vector is unchanged' % c, z3.Implies(z3.And(c < g['LY'], untouched), z3.Select(yf, c) == z3.Select(y0, c))))
     return obl
 
-KERNELS = {'gemv': (build_gemv, oracle_gemv, [(t, a, b) for t in 'NT' for a in (1, -1) for b in (1, -1)]),
+# ------------------------------------------------------------------------------------------ gemm, C sparse, partial=True, A sparse (transposed), B dense
+
+def build_gemm_p(mod, B_, tB):
+    from vp.llsym import scen_kernel as K, exec as X
+    sc = K.KernelScenario(mod, nmax_scal=1)
+    I = z3.Int
+    m, n, k = I('m'), I('n'), I('k')
+    alpha, beta = z3.Real('alpha'), z3.Real('beta')
+    A = sc.new_ccs('A', k, m, B_['NNZ'], B_['C'])            # a is k x m; op(A) = a^T is m x k (transA = 'T': no temporary transpose)
+    C = sc.new_ccs('C', m, n, B_['NNZ'], B_['C'])
+    sc.array('B', 'real', k*n)
+    # ---- contract transcribed from base_gemm (base.c): dimensions agree, C is m x n (checked since e158143), m, n > 0
+    sc.pre += [m >= 1, n >= 1, k >= 0, m <= B_['C'], n <= B_['C'], k <= B_['R']]
+    args = [84, 78 if tB == 'N' else 84, alpha, z3.RealVal(0), A, X.Ptr('arr:B', 0), beta, z3.RealVal(0), C, 1, 0, 1, 1, X.Ptr('zout', 0), m, n, k]
+    info = dict(m=m, n=n, k=k, alpha=alpha, beta=beta, tB=tB)
+    return sc, 'sp_dgemm', args, info
+
+def oracle_gemm_p(sc, B_, info, final):
+    """every stored entry (i, j) of C becomes alpha*(a^T op(B))[i, j] + beta*C[i, j]; the pattern of C, the rest of its value array and A, B are unchanged"""
+    from vp.llsym import scen_kernel as K
+    g = info; m, n, k = g['m'], g['n'], g['k']
+    V0 = sc.arrays['C.values']['init']; Vf = final.get(('arr', 'C.values'), V0)
+    R = sc.arrays['C.rowind']['init']; CP = sc.arrays['C.colptr']['init']; B0 = sc.arrays['B']['init']
+    obl = []
+    nnzC = sc.ccs['C'].nnz
+    for o in range(B_['NNZ']):
+        i = z3.Select(R, o)
+        cases = []
+        for j in range(B_['C']):
+            incol = z3.And(z3.Select(CP, j) <= o, o < z3.Select(CP, j + 1), j < n)
+            val = z3.RealVal(0)
+            for l in range(B_['R']):
+                b_lj = z3.Select(B0, l + j*k) if g['tB'] == 'N' else z3.Select(B0, j + l*n)
+                term = (lambda b_: (lambda v: K.fm(v, b_)))(b_lj)
+                val = val + z3.If(l < k, sc.dense_entry('A', l, i, B_['C'], times=term), z3.RealVal(0))
+            want = K.fm(g['alpha'], val) + K.fm(g['beta'], z3.Select(V0, o))
+            cases.append(z3.Implies(incol, z3.Select(Vf, o) == want))
+        obl.append(('stored entry %d of C = alpha*(op(A) op(B))[i,j] + beta*C[i,j]' % o, z3.Implies(o < nnzC, z3.And(*cases))))
+        obl.append(('value cell %d of C beyond its entries is unchanged' % o, z3.Implies(o >= nnzC, z3.Select(Vf, o) == z3.Select(V0, o))))
+    for nm in ('C.colptr', 'C.rowind', 'A.colptr', 'A.rowind', 'A.values', 'B'):
+        obl.append(('%s is not written' % nm, z3.BoolVal(('arr', nm) not in final)))
+    return obl
+
+KERNELS = {'gemm_p': (build_gemm_p, oracle_gemm_p, [('N',), ('T',)]),
+           'gemv': (build_gemv, oracle_gemv, [(t, a, b) for t in 'NT' for a in (1, -1) for b in (1, -1)]),
            'symv': (build_symv, oracle_symv, [(t, a, b) for t in 'UL' for a in (1, -1) for b in (1, -1)])}
 
 # ------------------------------------------------------------------------------------------ job
@@ -165,6 +209,7 @@ def job(cfg):
         return v, (s.model() if r == z3.sat else None)
     names = sorted(set(['nrows', 'ncols', 'm', 'n', 'oA', 'ix', 'iy', 'ox', 'oy', 'LX', 'LY', 'alpha', 'beta', 'A_cap']))
     def render(model):
+        if cfg['kernel'] == 'gemm_p': return render_gemm(model)
         d = {}
         for nm in names:
             v = model.eval(z3.Int(nm) if nm not in ('alpha', 'beta') else z3.Real(nm), model_completion=True); d[nm] = str(v)
@@ -174,6 +219,17 @@ def job(cfg):
         nnz = int(d['colptr'][-1]) if d['colptr'] else 0
         d['rowind'] = [ev('A.rowind', k) for k in range(nnz)]; d['values'] = [ev('A.values', k) for k in range(nnz)]
         d['x'] = [ev('x', k) for k in range(int(d['LX']))]; d['y'] = [ev('y', k) for k in range(int(d['LY']))]
+        return d
+    def render_gemm(model):
+        d = {}
+        for nm in ('m', 'n', 'k', 'A_cap', 'C_cap'): d[nm] = str(model.eval(z3.Int(nm), model_completion=True))
+        for nm in ('alpha', 'beta'): d[nm] = str(model.eval(z3.Real(nm), model_completion=True))
+        ev = lambda a, k_: str(model.eval(z3.Select(sc.arrays[a]['init'], k_), model_completion=True))
+        for pref, nc in (('A', int(d['m'])), ('C', int(d['n']))):
+            cp = [ev(pref + '.colptr', j) for j in range(nc + 1)]; nnz = int(cp[-1])
+            d[pref + 'colptr'] = cp; d[pref + 'rowind'] = [ev(pref + '.rowind', k_) for k_ in range(nnz)]; d[pref + 'values'] = [ev(pref + '.values', k_) for k_ in range(nnz)]
+        d['Anrows'], d['Ancols'], d['Cnrows'], d['Cncols'] = d['k'], d['m'], d['m'], d['n']
+        d['B'] = [ev('B', t) for t in range(int(d['k'])*int(d['n']))]
         return d
     for p in ex.paths:
         res['paths'] += 1; res['kinds'][p['kind']] = res['kinds'].get(p['kind'], 0) + 1
@@ -217,7 +273,7 @@ def job(cfg):
             elif r != 'unsat': res['unsupported'].append('undecided: ' + label)
         # inputs are not written
         for a in p['acc']:
-            if a[2] == 'w' and a[0] != 'y':
+            if a[2] == 'w' and a[0] not in ('y', 'C.values'):
                 res['findings'].append({'key': '%s:writes-input' % cfg['kernel'], 'text': 'writes into input array %s' % a[0], 'model': None, 'variant': cfg['variant']})
         if res['sample'] is None:
             res['sample'] = {'kernel': fname, 'variant': cfg['variant'], 'path_condition_size': len(p['pc']), 'accesses': len(p['acc'])}
@@ -234,11 +290,29 @@ d = json.loads(sys.argv[1]); m = d['model']; kern = d['kernel']; var = d['varian
 fl = lambda s: float(F(s))
 def mk_sp(pref=''):
     cp = [int(v) for v in m[pref + 'colptr']]; ri = [int(v) for v in m[pref + 'rowind']]; vs = [fl(v) for v in m[pref + 'values']]
+    if not ri: return spmatrix([], [], [], (int(m[pref + 'nrows']), int(m[pref + 'ncols'])), 'd')
     J = [j for j in range(len(cp) - 1) for _ in range(cp[j + 1] - cp[j])]
     return spmatrix(vs, ri, J, (int(m[pref + 'nrows']), int(m[pref + 'ncols'])), 'd')
 def vec(name, L):
     v = [fl(t) for t in m[name]]
     return matrix(v, (len(v), 1), 'd') if v else matrix(0.0, (0, 1))
+if kern == 'gemm_p':
+    A = mk_sp('A'); C = mk_sp('C'); k, n, mm = int(m['k']), int(m['n']), int(m['m'])
+    tB = var[0]
+    Bv = [fl(t) for t in m['B']]
+    B = matrix(Bv, (k, n) if tB == 'N' else (n, k), 'd') if Bv else matrix(0.0, (k, n) if tB == 'N' else (n, k))
+    al, be = fl(m['alpha']), fl(m['beta'])
+    print('CALL base.gemm(A, B, C, transA=\'T\', transB=%r, alpha=%r, beta=%r, partial=True) with A = %s sparse %r, B = %r, C = %s sparse %r' % (tB, al, be, A.size, list(zip(A.I, A.J, A.V)), list(B), C.size, list(zip(C.I, C.J, C.V))), flush=True)
+    Ad, Bd, Cd = matrix(A), (B if tB == 'N' else B.T), matrix(C)
+    D = al*(Ad.T*Bd) + be*Cd if k else be*Cd
+    ref = [D[i, j] for i, j in zip(C.I, C.J)]
+    pat = (list(C.I), list(C.J))
+    print('REF ' + json.dumps(ref), flush=True)
+    try:
+        base.gemm(A, B, C, transA='T', transB=tB, alpha=al, beta=be, partial=True)
+        got = list(C.V) if (list(C.I), list(C.J)) == pat else 'pattern changed'
+    except Exception as e: got = 'raises %s' % type(e).__name__
+    print('GOT ' + json.dumps(got), flush=True)
 if kern == 'symv':
     A = mk_sp(); x = vec('x', 'LX'); y = vec('y', 'LY'); y2 = matrix(y)
     kw = dict(uplo=var[0], alpha=fl(m['alpha']), beta=fl(m['beta']), n=int(m['n']), incx=int(m['ix']), incy=int(m['iy']),
@@ -339,7 +413,7 @@ def main(tier, pid='C16', ev=None):
             if k in known: known_hits.append((k, known[k]['what'])); continue
             violations.append((k, rp, '%s -> %s' % (fs[0]['text'], rep)))
         ev.cov.update({'states': max(1, paths), 'transitions': max(1, ev.obl['total']), 'traces_validated_against_impl': 0, 'instructions_interpreted': instr,
-                       'functions_encoded': ['sparse.c: sp_dgemv, sp_dsymv'], 'source_hash': ir.src_hash(cfile),
+                       'functions_encoded': ['sparse.c: sp_dgemv, sp_dsymv, sp_dgemm (A sparse transposed, B dense, C sparse, partial update)'], 'source_hash': ir.src_hash(cfile),
                        'bounds': json.dumps(BOUNDS[tier]) + ' (R rows, C columns, NNZ stored entries, M = max m,n, L = max vector length, INC = max |increment|, OFF = max vector offset); loops unrolled to these bounds'})
         ev.assumptions += ["the argument checks of the base.c wrapper (base_gemv) are transcribed as the kernel's precondition, the wrapper itself is not executed",
                            'offsetA addresses a genuine m x n block (no wrap-around of a column): for wrapped blocks the dense BLAS call reads across columns, which the sparse kernel does not imitate (outside)',
